@@ -8,6 +8,7 @@ is an oracle recorded per run.  The property's clauses are evaluated inside Coq
 import contextlib
 import io
 import itertools
+import re
 
 import common
 import lit
@@ -327,6 +328,42 @@ def rand_bmult_case(rng):
     return {'kind': 'prop', 'aa': aa, 'units': units, 'frags': frags}
 
 
+CMULT_SHAPES = [('[$]', '[$]'), ('[$]', '[#Y][$]'), ('[$][#Z]', '[$]'), ('[$][#Z]', '[#Y][$]'), ('[$][#Z]([#Y])', '[$]'),
+                ('[$]', '([#Y])[$]')]
+
+
+def rand_cmult_case(rng, n=None, shape=None):
+    """a coarse node WITH A MULTIPLIER and an annotation inside a fragment definition, `#A=[$][#X;w=2;foo=bar]|3[#Y][$]`,
+    coarse step.  By the syntax `[#X;..]|n` stands for n consecutive nodes with the same annotations (as in the base
+    graph); every copy must carry the annotation.  The annotation is kept outside the atom-dialect class (name
+    positional, no q / x) and no annotated token follows the multiplier in the same definition."""
+    safe = dict(nums=NUMS_PLAIN + [' 1 ', 'inf', '1e-05'], freek=SAFEK, freev=SAFEV)
+    fn = rng.choice(['A', 'B', 'PEO'])
+    while True:
+        assign, free = rand_annot(rng, 0, fragname='X', pfree=0.8, **safe)
+        assign = [a for a in assign if a[0] != 'q']
+        free = [f for f in free if f[0] != 'x']
+        if len(assign) > 1 or free:
+            break
+    ws = [w for w in writings(0, assign, free, rng=rng) if w and w[0][0] == 'P' and sum(1 for e in w if e[0] == 'P') == 1]
+    pre, post = shape if shape is not None else rng.choice(CMULT_SHAPES)
+    uses = rng.randint(1, 3)
+    units = []
+    for _ in range(uses if rng.random() < 0.6 else 1):
+        a2, f2 = rand_annot(rng, 0, fragname=fn, **safe)
+        units.append({'annot': {'assign': a2, 'free': f2, 'ents': one_writing(rng, 0, a2, f2, fragname_first=True)}, 'mult': 1})
+    if len(units) == 1:
+        units[0]['mult'] = uses
+    return {'kind': 'cmult', 'units': units, 'fname': fn, 'pre': pre, 'post': post, 'n': n if n is not None else rng.choice([1, 2, 2, 3, 4]),
+            'annot': {'assign': assign, 'free': free, 'ents': rng.choice(ws)}}
+
+
+def render_cmult(case):
+    base = ''.join(render_node(u) for u in case['units'])
+    tok = '[#' + render_ents(case['annot']['ents']) + ']' + ('|%d' % case['n'] if case['n'] > 1 else '')
+    return '{' + base + '}.{#' + case['fname'] + '=' + case['pre'] + tok + case['post'] + '}'
+
+
 def expand_units(units):
     """the annotation of every node of the base graph in key order, with all multipliers written out:
     a node `[#A;..]|m` gives m nodes; a unit `[#A;..]([#B;..]..)|n` gives n times (anchor, branch nodes)"""
@@ -416,7 +453,8 @@ class C14(common.Prop):
                  10: 'an annotation of a coarse node inside a fragment definition is missing or altered on a copy in the finer graph',
                  11: 'the fine graph does not have one copy of the annotated atom per use of the fragment',
                  90: 'internal: the check generated an ill-formed case (bug in tools/props/c14.py)',
-                 110: 'coarse node inside a fragment definition: reserved q / positional values are read with the atom dialect'}
+                 110: 'coarse node inside a fragment definition: reserved q / positional values are read with the atom dialect',
+                 111: 'multiplied coarse node `[#X;..]|n` inside a fragment definition: only the first of the n copies carries the annotation'}
 
     # -- cases ---------------------------------------------------------------------------------
     def corpus(self, ctx):
@@ -482,6 +520,14 @@ class C14(common.Prop):
                 {'annot': an('A', [('w', '2')], [('k1', 'v')], ents=[['P', 'A'], ['K', 'k1', 'v'], ['K', 'w', '2']]), 'mult': 1,
                  'branch': {'nodes': [{'annot': an('B', [('q', '+1')]), 'mult': 1}], 'n': n}},
                 {'annot': an('A', [], [('mass', '72')]), 'mult': 1}]})
+        # multiplied annotated coarse nodes inside fragment definitions (n = 1: no multiplier, must be clean)
+        for n in (1, 2, 3):
+            for shape in CMULT_SHAPES[:4]:
+                out.append(rand_cmult_case(rng, n=n, shape=shape))
+        out.append({'kind': 'cmult', 'fname': 'A', 'pre': '[$]', 'post': '[#Y][$]', 'n': 3,
+                    'units': [{'annot': an('A'), 'mult': 2}],
+                    'annot': {'assign': [['fragname', 'X'], ['w', '2']], 'free': [['foo', 'bar']],
+                              'ents': [['P', 'X'], ['K', 'w', '2'], ['K', 'foo', 'bar']]}})
         return out
 
     def generate(self, ctx, n):
@@ -497,10 +543,12 @@ class C14(common.Prop):
             elif r < 0.65:
                 d = rng.choice((0, 1))
                 out.append({'kind': 'parse', 'd': d, 'text': fuzz_text(rng, d)})
-            elif r < 0.88:
+            elif r < 0.85:
                 out.append(rand_prop_case(rng))
-            else:
+            elif r < 0.95:
                 out.append(rand_bmult_case(rng))
+            else:
+                out.append(rand_cmult_case(rng))
         return out
 
     # -- implementation ------------------------------------------------------------------------
@@ -512,8 +560,25 @@ class C14(common.Prop):
             texts = [render_ents(es) for es in case['variants']]
             tbl = float_table({v for _, v in case['assign']} | {c for t in texts for c in candidates(t)})
             return {'res': [run_parser(case['d'], t) for t in texts], 'table': tbl}
-        # propagation
         from cgsmiles.resolve import MoleculeResolver
+        if kind == 'cmult':
+            s = render_cmult(case)
+            texts = [render_ents(a['ents']) for a in unit_annots(case['units'])] + [render_ents(case['annot']['ents'])]
+            tbl = float_table({c for t in texts for c in candidates(t)})
+            try:
+                with contextlib.redirect_stdout(io.StringIO()):
+                    meta, mol = MoleculeResolver.from_string(s, last_all_atom=False).resolve()
+            except Exception as exc:
+                return {'s': s, 'exc': exc_desc(exc), 'table': tbl}
+            ans = expand_units(case['units'])
+            base = [simple_attrs(meta.nodes[k]) if k in meta.nodes else {} for k in range(len(ans))]
+            j = len(re.findall(r'\[#', case['pre']))
+            copies = []
+            for i in range(len(ans)):
+                keys = sorted(k for k in mol.nodes if mol.nodes[k].get('fragid') == [i])
+                copies.append([simple_attrs(mol.nodes[k]) for k in keys[j:j + case['n']]])
+            return {'s': s, 'base': base, 'copies': copies, 'table': tbl, 'extra_nodes': len(meta.nodes) - len(ans)}
+        # propagation
         s = render_prop(case)
         texts = [render_ents(a['ents']) for a in unit_annots(case['units'])]
         for f in case['frags']:
@@ -560,6 +625,15 @@ class C14(common.Prop):
                           for es, r in zip(case['variants'], impl['res'])])
             return '(CForms %s %s %s %s %s)' % (lit.nat(case['d']), tbl, coq_entries(case['assign']),
                                                coq_entries(case['free']), vs)
+        if kind == 'cmult':
+            if 'exc' in impl or impl.get('extra_nodes'):
+                # a rejected string: stated as an ordinary propagation case without copies (code 9)
+                return '(CProp %s false (Some %s) [] [])' % (tbl, coq_err(impl['exc']) if 'exc' in impl else 'EAssert')
+            base = ['(%s, %s, %s)' % (coq_annot(an), lit.s(render_ents(an['ents'])), lit.attrs(impl['base'][k]))
+                    for k, an in enumerate(expand_units(case['units']))]
+            return '(CMult %s %s %s %s %s %s %s)' % (
+                tbl, lit.lst(base), lit.s(case['fname']), coq_annot(case['annot']), lit.s(render_ents(case['annot']['ents'])),
+                lit.nat(case['n']), lit.lst([lit.lst([lit.attrs(c) for c in cs]) for cs in impl['copies']]))
         if 'exc' in impl:
             nb = len(expand_units(case['units']))
             na = sum(1 for f in case['frags'] for t in f['tokens'] if isinstance(t, dict))
@@ -648,15 +722,17 @@ class C14(common.Prop):
     # -- bookkeeping ---------------------------------------------------------------------------
     def known_class(self, case, impl, code):
         # the class predicate is evaluated in Coq (DialectCheck.coarse_fragment_dialect_class): code 110
-        return 'coarse_fragment_atom_dialect' if code == 110 else None
+        return {110: 'coarse_fragment_atom_dialect', 111: 'coarse_fragment_multiplier'}.get(code)
 
     def describe(self, case):
         if case['kind'] == 'prop':
             return {'kind': 'prop', 'aa': case['aa'], 's': render_prop(case), 'units': case['units'], 'frags': case['frags']}
+        if case['kind'] == 'cmult':
+            return dict(case, s=render_cmult(case), aa=False)
         return case
 
     def nontrivial(self, case, impl):
-        if case['kind'] == 'prop':
+        if case['kind'] in ('prop', 'cmult'):
             return 'exc' not in impl
         if case['kind'] == 'forms':
             return len(case['variants']) > 1
@@ -671,6 +747,8 @@ class C14(common.Prop):
             return 'forms:d%d:%s' % (case['d'], 'ok' if 'ok' in r else r['err'])
         if 'exc' in impl:
             return 'prop:exception:' + impl['exc']
+        if case['kind'] == 'cmult':
+            return 'prop:coarse-fragment-node-multiplier:n%d:uses%d' % (case['n'], len(impl['copies']))
         if any(u.get('branch') for u in case['units']):
             return 'prop:branch-multiplier:n%d:%s' % (max(u['branch']['n'] for u in case['units'] if u.get('branch')),
                                                       'atomistic' if case['aa'] else 'coarse')
